@@ -24,7 +24,7 @@ ASSUMPTIONS = [
     "absent entries differ from every present entry by far more than the library's documented fuzzy entry equality (rel 1e-9)",
     "deleteEntry of an absent entry must raise (any exception type)",
 ]
-REQUIRED_CLASSES = ["history:collision_merge_many", "history:collision_replace", "history:delete_absent",
+REQUIRED_CLASSES = ["history:delete_absent_same_time", "history:collision_merge_many", "history:collision_replace", "history:delete_absent",
                     "history:insert_outside_span", "history:point_collision"]
 
 
@@ -152,7 +152,12 @@ def run_history(case):
             model.resolve(new_entry, cand[0][-1])
         else:
             if op.get("absent") or not model.entries:
-                if model.is_int:
+                if model.entries and op.get("absent") == "same_time":
+                    # absent, but at the time(s) of an existing entry: only the label differs
+                    e0 = model.entries[op["sel"] % len(model.entries)]
+                    entry = tuple(list(e0[:-1]) + [e0[-1] + "_other"])
+                    classes.add("delete_absent_same_time")
+                elif model.is_int:
                     entry = (1000.0 + op["sel"], 1001.5 + op["sel"], "zz")
                 else:
                     entry = (1000.5 + op["sel"], "zz")
@@ -229,7 +234,8 @@ def histories(draw):
                         "report": draw(st.sampled_from(["silence", "warning"])),
                         "form": draw(st.sampled_from(["obj", "tuple", "list"]))})
         else:
-            ops.append({"op": "delete", "sel": draw(st.integers(0, 7)), "absent": draw(st.integers(0, 4)) == 0})
+            ops.append({"op": "delete", "sel": draw(st.integers(0, 7)),
+                        "absent": draw(st.sampled_from([False, False, False, True, "same_time"]))})
     return {"tier": spec, "ops": ops}
 
 
